@@ -36,7 +36,7 @@ def _call(fn, *a, **kw):
 # ---------------------------------------------------------------------------
 def cases(tier, seed, args):
     prop = args.get('prop', 'C14')
-    rng = np.random.default_rng(seed + 1000 * int(prop[1:]))
+    rng = np.random.default_rng(seed + 1000 * sum(map(ord, prop)))
     out = []
     q = tier == 'quick'
     if prop in ('C14', 'C15'):
@@ -75,6 +75,76 @@ def cases(tier, seed, args):
                             metric=['cos', 'euclidean', 'multiply'][i % 3],
                             alg=['greedy', 'optimal'][(i // 3) % 2],
                             glob=bool((i // 6) % 3 == 0)))
+    if prop == 'C16plan':
+        mx = int(args.get('max_stft', 24))
+        for stft in range(2, mx + 1):
+            F = stft // 2 + 1
+            for start in range(0, mx // 2 + 2):
+                for width in range(1, mx // 2 + 2):
+                    if start + width <= F:
+                        for shift in range(1, width + 1):
+                            out.append(dict(t='plan', stft=stft, start=start, width=width, shift=shift))
+                    elif (start + width) % 5 == 0:
+                        out.append(dict(t='plan', stft=stft, start=start, width=width, shift=1))
+        out.append(dict(t='plan', stft=512, start=70, width=100, shift=20, main=20, sub=2))
+        out.append(dict(t='plan', stft=1024, start=100, width=100, shift=20, main=20, sub=2))
+        out.append(dict(t='plan', stft=512, default=True))
+        out.append(dict(t='plan', stft=1024, default=True))
+    if prop == 'dhtvx':
+        # the instance MC_DHTV explores: K, NF, T, Vals, metrics, algs  (exhaustive)
+        K, NF, T = args['K'], args['NF'], args['T']
+        vals = args['vals']
+        stride = int(args.get('stride', 1))
+        n = 0
+        for flat in itertools.product(vals, repeat=K * NF * T):
+            m = np.array(flat).reshape(K, NF, T).tolist()
+            for start in range(0, NF + 1):
+                for width in range(1, NF + 1):
+                    for shift in range(1, width + 1):
+                        if start + width > NF:
+                            continue
+                        for metric in args['metrics']:
+                            for alg in args['algs']:
+                                n += 1
+                                if n % stride:
+                                    continue
+                                out.append(dict(t='dhtvx', m=m, stft=2 * (NF - 1), start=start, width=width,
+                                                shift=shift, main=2, sub=1, metric=metric, alg=alg))
+    if prop == 'oraclex':
+        K, NF, T = args['K'], args['NF'], args['T']
+        vals = args['vals']
+        rows = list(itertools.product(vals, repeat=T))
+        perbin = [c for c in itertools.permutations(rows, K)]
+        perms = list(itertools.permutations(range(K)))
+        stride = int(args.get('stride', 1))
+        n = 0
+        for bins in itertools.product(perbin, repeat=NF):
+            m = [[list(bins[f][k]) for f in range(NF)] for k in range(K)]
+            for fld in itertools.product(perms, repeat=NF):
+                field = [[fld[f][k] for f in range(NF)] for k in range(K)]
+                for metric, alg in args['combos']:
+                    n += 1
+                    if n % stride:
+                        continue
+                    out.append(dict(t='oraclex', m=m, field=field, metric=metric, alg=alg))
+    if prop == 'C16':
+        n = 60 if q else 500
+        for i in range(n):
+            K = int(rng.integers(2, 5))
+            F = int(rng.choice([9, 17, 33, 65] if q else [9, 17, 33, 65, 129, 257, 513]))
+            T = int(rng.integers(8, 40))
+            out.append(dict(t='consist', aligner=['greedy', 'dhtv', 'dhtv_default', 'identity'][i % 4],
+                            K=K, F=F, T=T, seed=int(rng.integers(1 << 30)),
+                            metric=['cos', 'euclidean', 'multiply'][(i // 4) % 3],
+                            alg=['greedy', 'optimal'][(i // 12) % 2]))
+        n = 30 if q else 300
+        for i in range(n):
+            K = int(rng.integers(1, 5))
+            F = int(rng.choice([1, 3, 5, 9, 17, 33] if q else [1, 3, 5, 9, 17, 33, 61]))
+            T = int(rng.integers(1, 6))
+            out.append(dict(t='greedyx_rand', K=K, F=F, T=T, seed=int(rng.integers(1 << 30)),
+                            metric=['euclidean', 'multiply'][i % 2], which=['greedy', 'dhtv'][(i // 2) % 2],
+                            alg=['greedy', 'optimal'][(i // 4) % 2]))
     return out
 
 
@@ -252,8 +322,142 @@ def _oracle_inv(case):
                           f'oinv:{case["seed"]}', ref=ref)]
 
 
+def _plan(case):
+    if case.get('default'):
+        al, exc = _call(pa.DHTVPermutationAlignment.from_stft_size, case['stft'])
+        case = dict(case, start=al.segment_start, width=al.segment_width, shift=al.segment_shift,
+                    main=al.main_iterations, sub=al.sub_iterations)
+    else:
+        al = pa.DHTVPermutationAlignment(stft_size=case['stft'], segment_start=case['start'],
+                                         segment_width=case['width'], segment_shift=case['shift'],
+                                         main_iterations=case.get('main', 3), sub_iterations=case.get('sub', 2))
+    plan, exc = _call(lambda: al.alignment_plan)
+    return [dict(kind='plan', stft=case['stft'], start=case['start'], width=case['width'], shift=case['shift'],
+                 main=case.get('main', 3), sub=case.get('sub', 2), exc=exc,
+                 plan=[] if plan is None else [[int(x) for x in e] for e in plan],
+                 fp='fn=alignment_plan', key=f"plan:{case['stft']}:{case['start']}:{case['width']}:{case['shift']}")]
+
+
+def _exact(case):
+    m = np.array(case['m'], dtype=float)
+    K, F, T = m.shape
+    t = case['t']
+    if t == 'dhtvx':
+        al = pa.DHTVPermutationAlignment(stft_size=case['stft'], segment_start=case['start'],
+                                         segment_width=case['width'], segment_shift=case['shift'],
+                                         main_iterations=case['main'], sub_iterations=case['sub'],
+                                         similarity_metric=case['metric'], algorithm=case['alg'])
+        mask = m
+        args = ()
+    elif t == 'greedyx':
+        al = pa.GreedyPermutationAlignment(similarity_metric=case['metric'])
+        mask = m
+        args = ()
+    else:
+        field = np.array(case['field'])
+        mask = pa.apply_mapping(m, field)
+        al = pa.OraclePermutationAlignment(similarity_metric=case['metric'], algorithm=case['alg'])
+        args = (m,)
+    before = mask.copy()
+    mapping, exc = _call(al.calculate_mapping, mask, *args)
+    aligned = None
+    if mapping is not None:
+        aligned, exc = _call(al, mask, *args)
+    if enc.digest(before) != enc.digest(mask):
+        exc = 'InputMutated'
+    rec = dict(kind=t, m=enc.aint(m), metric=case['metric'], alg=case.get('alg', 'greedy'), exc=exc,
+               mapping=[] if mapping is None else enc.aint(mapping),
+               aligned=[] if aligned is None else enc.aint(aligned),
+               fp=f'{t};metric={case["metric"]};alg={case.get("alg")}',
+               key=f'{t}:{case["m"]}:{case.get("field")}:{case["metric"]}:{case.get("alg")}:'
+                   f'{case.get("start")}:{case.get("width")}:{case.get("shift")}')
+    for k in ('stft', 'start', 'width', 'shift', 'main', 'sub', 'field'):
+        if k in case:
+            rec[k] = case[k]
+    return [rec]
+
+
+def _structured(rng, K, F, T):
+    """Nearly orthogonal non-negative activity patterns, equal across frequency up to 10 % jitter."""
+    pat = np.zeros((K, T))
+    owner = rng.permutation(np.arange(T) % K)
+    pat[owner, np.arange(T)] = 1.0
+    pat = pat * rng.uniform(0.5, 1.0, size=(K, T)) + 0.01 * rng.random((K, T))
+    m = pat[:, None, :] * rng.uniform(0.9, 1.0, size=(K, F, T))
+    return m
+
+
+def _consist(case):
+    rng = np.random.default_rng(case['seed'])
+    K, F, T = case['K'], case['F'], case['T']
+    ref = _structured(rng, K, F, T)
+    kind = case['aligner']
+    rec = dict(kind='consist', aligner='greedy', stft=0, start=0, width=0, shift=0, main=0, sub=0,
+               expect_identity=False)
+    if kind == 'greedy':
+        al = pa.GreedyPermutationAlignment(similarity_metric=case['metric'], algorithm=case['alg'])
+    elif kind == 'identity':
+        al = pa.GreedyPermutationAlignment(similarity_metric=case['metric']) if case['seed'] % 2 else None
+        rec['expect_identity'] = True
+    if kind in ('dhtv', 'dhtv_default') or (kind == 'identity' and al is None):
+        if kind == 'dhtv_default' and F in (257, 513):
+            al = pa.DHTVPermutationAlignment.from_stft_size(2 * (F - 1), similarity_metric=case['metric'])
+        else:
+            width = int(rng.integers(3, max(4, F // 2)))
+            start = int(rng.integers(0, F - width + 1))
+            shift = int(rng.integers(1, max(2, width // 3 + 1)))
+            al = pa.DHTVPermutationAlignment(
+                stft_size=2 * (F - 1), segment_start=start, segment_width=width, segment_shift=shift,
+                main_iterations=20, sub_iterations=2, similarity_metric=case['metric'],
+                algorithm=case['alg'])
+        rec.update(aligner='dhtv', stft=al.stft_size, start=al.segment_start, width=al.segment_width,
+                   shift=al.segment_shift, main=al.main_iterations, sub=al.sub_iterations)
+    # injected permutation field
+    if kind == 'identity':
+        field = np.repeat(np.arange(K)[:, None], F, axis=1)
+    else:
+        field = np.stack([rng.permutation(K) for _ in range(F)], axis=1)
+        if rec['aligner'] == 'dhtv':
+            # >= 70 % of the first segment's bins share one order (here: ~80 %)
+            s, e = rec['start'], rec['start'] + rec['width']
+            lo = range(rec['start'] - rec['shift'], 0, -rec['shift'])
+            hi = range(rec['start'] + rec['shift'], F - rec['width'], rec['shift'])
+            if len(hi) == 0:
+                e = F
+            if len(lo) == 0:
+                s = 0
+            common = rng.permutation(K)
+            for f in range(s, e):
+                if rng.random() < 0.85:
+                    field[:, f] = common
+    mask = pa.apply_mapping(ref, field)
+    mapping, exc = _call(al.calculate_mapping, mask)
+    rec.update(truth=enc.aint(field + 1), exc=exc, mapping=[] if mapping is None else enc.aint(mapping),
+               fp=f'consist;aligner={kind};metric={case["metric"]};alg={case["alg"]}',
+               key=f'consist:{case["seed"]}')
+    return [rec]
+
+
 def run_case(case):
     t = case['t']
+    if t == 'plan':
+        return _plan(case)
+    if t in ('dhtvx', 'greedyx', 'oraclex'):
+        return _exact(case)
+    if t == 'consist':
+        return _consist(case)
+    if t == 'greedyx_rand':
+        rng = np.random.default_rng(case['seed'])
+        K, F, T = case['K'], case['F'], case['T']
+        m = rng.integers(0, 4 if case['seed'] % 4 == 0 else 101, size=(K, F, T)).tolist()
+        if case['which'] == 'greedy':
+            return _exact(dict(t='greedyx', m=m, metric=case['metric']))
+        width = int(rng.integers(1, F + 1))
+        start = int(rng.integers(0, F - width + 1))
+        shift = int(rng.integers(1, width + 1))
+        return _exact(dict(t='dhtvx', m=m, stft=2 * (F - 1), start=start, width=width, shift=shift,
+                           main=int(rng.integers(1, 4)), sub=int(rng.integers(1, 3)),
+                           metric=case['metric'], alg=case['alg']))
     if t == 'assign_int':
         return [_rec_assign(np.array(case['S']), case['alg'], case.get('batch', 0))]
     if t == 'assign_rand':
